@@ -1628,13 +1628,17 @@ impl<'a> Visitor<'a, '_, Error> for JSONValidator<'a> {
         }
       },
       ControlOperator::AND => {
-        self.state.ctrl = Some(ctrl);
+        // both operands are plain types: the value must match each of them.
+        // (No control operator is put in effect while they are visited -
+        // a literal operand would otherwise be compared "under .and".)
+        self.state.ctrl = None;
         self.visit_type2(target)?;
         self.visit_type2(controller)?;
         self.state.ctrl = None;
       }
       ControlOperator::WITHIN => {
-        self.state.ctrl = Some(ctrl);
+        // as for `.and`: both operands are visited as plain types
+        self.state.ctrl = None;
         let error_count = self.errors.len();
         self.visit_type2(target)?;
         let no_errors = self.errors.len() == error_count;
